@@ -16,6 +16,7 @@ struct KFd {
 	std::deque<int> backlog;       // client index, or -(errno) for an aborted/failed accept
 	// stream
 	int client = -1;
+	int cfg_calls = 0, cfg_fail_at = 0, cfg_fail_errno = 0;   // fault: the n-th configuration call (fcntl/getsockname/setsockopt) on this connection fails
 	// timer
 	bool armed = false; uint64_t deadline = 0; uint64_t expirations = 0; uint64_t armed_value = 0;
 	// file
